@@ -1,0 +1,59 @@
+//go:build verif
+
+// Contracts for the MiMC streaming hash of this curve (comment-only; installed by /verif/gcv gen-contracts).
+// Layer "ring fr.Element": absorbed blocks are abstract field elements. "option strict-slice-len" makes
+// every re-slice of the input obey len (not cap): the property forbids reading bytes outside the given slice.
+
+package mimc
+
+//@ func (fr.ByteOrder).Element
+//@ layer ring fr.Element
+//@ assumed interface fr.ByteOrder (implemented by fr.BigEndian / fr.LittleEndian, whose contracts are proved under C08): the decoder reads only its 32-byte argument and returns a nil error exactly for canonical encodings
+//@ end
+
+//@ func digest.Write
+//@ layer ring fr.Element
+//@ option nomerge
+//@ option strict-slice-len
+//@ loop 0
+//@ + invariant[aligned] 0 <= start && start % BlockSize == 0
+//@ ensures[accept-length] isnil(result1) ==> len(p) % BlockSize == 0 || len(p) < BlockSize
+//@ ensures[accept-count] isnil(result1) ==> result0 == len(p) || (len(p) < BlockSize && result0 == BlockSize)
+//@ ensures[reject-count] !isnil(result1) ==> result0 == 0
+//@ modifies d
+//@ end
+
+//@ func digest.encrypt
+//@ layer ring fr.Element
+//@ smt (define-fun-rec mimcRounds ((c (Array Int Int)) (h Int) (m Int) (i Int)) Int (ite (<= i 0) m (let ((t (+ (mimcRounds c h m (- i 1)) h (select c (- i 1))))) (* t t t t t))))
+//@ smt-fun mimcRounds Int
+//@ loop 0
+//@ + invariant[rounds] 0 <= i && i <= mimcNbRounds && m == ufint_mimcRounds(mimcConstants, d.h, old(m), i) && d.h == old(d.h)
+//@ ensures[value] result == ufint_mimcRounds(mimcConstants, old(d.h), old(m), mimcNbRounds) + old(d.h)
+//@ modifies nothing
+//@ end
+
+//@ func digest.checksum
+//@ layer ring fr.Element
+//@ smt (define-fun-rec mimcRounds ((c (Array Int Int)) (h Int) (m Int) (i Int)) Int (ite (<= i 0) m (let ((t (+ (mimcRounds c h m (- i 1)) h (select c (- i 1))))) (* t t t t t))))
+//@ smt (define-fun-rec mp ((c (Array Int Int)) (h Int) (data (Array Int Int)) (k Int)) Int (ite (<= k 0) h (let ((p (mp c h data (- k 1)))) (+ (mimcRounds c p (select data (- k 1)) 111) p p (select data (- k 1))))))
+//@ smt-fun mp Int
+//@ smt-fun mimcRounds Int
+//@ loop 0
+//@ + invariant[fold] -1 <= rangeindex && rangeindex < len(d.data) && d.h == ufint_mp(mimcConstants, old(d.h), d.data, rangeindex+1) && len(d.data) == old(len(d.data))
+//@ ensures[value] result == ufint_mp(mimcConstants, old(d.h), d.data, len(d.data)) && d.h == result
+//@ modifies d.h
+//@ end
+
+//@ func digest.SetState
+//@ layer ring fr.Element
+//@ ensures[flush] isnil(result) ==> len(d.data) == 0 && len(newState) == BlockSize
+//@ modifies d
+//@ end
+
+//@ func digest.Sum
+//@ layer ring fr.Element
+//@ ensures[flush] len(d.data) == 0
+//@ ensures[length] len(result) == len(b) + BlockSize
+//@ modifies d
+//@ end
